@@ -70,6 +70,9 @@ func vpInt(name string) int         { return int(vpNext(name, "int")) }
 func vpInt64(name string) int64     { return int64(vpNext(name, "int64")) }
 func vpUint64(name string) uint64   { return vpNext(name, "uint64") }
 func vpRune(name string) rune       { return rune(uint32(vpNext(name, "rune"))) }
+// vpBits returns a symbolic value of n bits, zero-extended to 64 (the high
+// bits are literal zeros for the solver, which keeps multipliers narrow).
+func vpBits(name string, n int) uint64 { return vpNext(name, "bits") & (^uint64(0) >> uint(64-n)) }
 func vpFloat64(name string) float64 { return math.Float64frombits(vpNext(name, "float64")) }
 
 func vpParam(name string) int {
@@ -124,6 +127,10 @@ func vpRender(v interface{}) string {
 	}
 	return fmt.Sprintf("<%T>", v)
 }
+
+// vpUF is an uninterpreted function over integers (engine only: an SMT
+// declare-fun); natively it is never reached because nothing is replaced.
+func vpUF(name string, args ...int64) int64 { panic("vpUF reached natively") }
 
 // vpReplace asks the engine to run fn instead of the named function; natively
 // nothing is replaced (the real code runs) and false is returned.
